@@ -1081,15 +1081,25 @@ struct Ctx
          bad = true;
       }
       std::set<std::string> keys, explained;
+      auto predicted = [&](const Line & l)
+      {
+         Model tmp = m;
+         return l.parsable && predLine(tmp, l);
+      };
+      auto arrived = [&](const Line & l)          // does the parameter now hold the value of this line?
+      {
+         if(l.ptype == 'b') return sp->boolParam((SoPlex::BoolParam)l.p) == (l.parsable ? l.bv : false);
+         if(l.ptype == 'i') return l.parsable && sp->intParam((SoPlex::IntParam)l.p) == l.iv;
+         if(l.ptype == 'r') return l.parsable && sameD(sp->realParam((SoPlex::RealParam)l.p), l.rv);
+         return l.parsable && sp->randomSeed() == (l.uv > UINT_MAX ? UINT_MAX : (unsigned)l.uv);
+      };
       // lines that must be rejected but whose value arrived in the parameter
       for(auto& x : d)
       {
          if(x.kind != "value" && x.kind != "seed") continue;
          const Line* tl = nullptr;
-         for(auto& l : lines) if(l.kind == 0 && l.pname == x.param) tl = &l;
+         for(auto& l : lines) if(l.kind == 0 && l.pname == x.param && !predicted(l) && arrived(l)) tl = &l;
          if(!tl) continue;
-         Model tmp = m;
-         if(tl->parsable && predLine(tmp, *tl)) continue;
          explained.insert(x.param);
          std::string key = "C15:loadSettingsFile:" + tl->pname + ":" + tl->cls + ":accepted";
          if(keys.insert(key).second) viol(key, "line <" + tl->text + "> must be rejected without effect: " + x.detail, content);
@@ -1097,16 +1107,15 @@ struct Ctx
       for(auto& x : d)
       {
          if(explained.count(x.param) || (!explained.empty() && x.kind == "lp")) continue;
-         const Line* tl = nullptr;
-         for(auto& l : lines) if(l.kind == 0 && l.pname == x.param) tl = &l;
+         const Line* tl = nullptr, *acc = nullptr;
+         for(auto& l : lines) if(l.kind == 0 && l.pname == x.param)
+            {
+               tl = &l;
+               if(predicted(l)) acc = &l;
+            }
          std::string key;
-         if(tl)
-         {
-            Model tmp = m;
-            bool lexp = tl->parsable && predLine(tmp, *tl);
-            std::string what = lexp ? (x.kind == "value" || x.kind == "seed" ? "not-stored" : x.kind) : "not-atomic";
-            key = "C15:loadSettingsFile:" + tl->pname + ":" + tl->cls + ":" + what;
-         }
+         if(acc) key = "C15:loadSettingsFile:" + acc->pname + ":" + acc->cls + ":" + (x.kind == "value" || x.kind == "seed" ? "not-stored" : x.kind);
+         else if(tl) key = "C15:loadSettingsFile:" + tl->pname + ":" + tl->cls + ":not-atomic";
          else if(special && special->kind == 2 && (x.kind == "value" || x.kind == "seed")) key = "C15:loadSettingsFile:-:" + special->cls + ":accepted";     // a malformed line had an effect
          else key = "C15:loadSettingsFile:" + x.param + ":-:" + (x.kind == "lp" ? "lp-changed" : x.kind == "value" || x.kind == "seed" ? "side-effect" : x.kind);
          if(keys.insert(key).second) viol(key, x.detail, content);
